@@ -298,14 +298,18 @@ func (s *Server) handleRPCFreeSectors(stream net.Conn) error {
 	// modify the sector roots
 	//
 	// NOTE: must match the behavior of BuildFreeSectorsProof
+	//
+	// NOTE: the roots returned by the contractor must not be modified before
+	// the revision is committed; the RPC may still be abandoned
+	roots := append([]types.Hash256(nil), state.Roots...)
 	for i, n := range req.Indices {
-		state.Roots[n] = state.Roots[len(state.Roots)-i-1]
+		roots[n] = roots[len(roots)-i-1]
 	}
-	state.Roots = state.Roots[:len(state.Roots)-len(req.Indices)]
+	roots = roots[:len(roots)-len(req.Indices)]
 	resp := rhp4.RPCFreeSectorsResponse{
 		OldSubtreeHashes: oldSubtreeHashes,
 		OldLeafHashes:    oldLeafHashes,
-		NewMerkleRoot:    rhp4.MetaRoot(state.Roots),
+		NewMerkleRoot:    rhp4.MetaRoot(roots),
 	}
 	if err := rhp4.WriteResponse(stream, &resp); err != nil {
 		return fmt.Errorf("failed to write response: %w", err)
@@ -328,7 +332,7 @@ func (s *Server) handleRPCFreeSectors(stream net.Conn) error {
 	revision.RenterSignature = renterSigResponse.RenterSignature
 	revision.HostSignature = s.hostKey.SignHash(sigHash)
 
-	err = s.contractor.ReviseV2Contract(req.ContractID, revision, state.Roots, usage)
+	err = s.contractor.ReviseV2Contract(req.ContractID, revision, roots, usage)
 	if err != nil {
 		return fmt.Errorf("failed to revise contract: %w", err)
 	}
